@@ -31,8 +31,8 @@ ASSUMPTIONS = ["the WGS84 defining constants a = 6378137 m, 1/f = 298.257223563 
                "Lambert-93 is the secant conformal conic of EPSG:2154 on GRS80 computed by the IGN algorithms ALG0001/0003/0054; "
                "tracklib's rounded projection constants may differ from it by up to 1 mm",
                "math.sin/cos/atan2/log/exp of the C library are accurate to a few ulp"]
-EXHAUSTIVE = {"quick": "cross product of 12 special longitudes x 13 special latitudes x 4 special heights, each against 14 special bases",
-              "thorough": "cross product of 12 special longitudes x 13 special latitudes x 4 special heights, each against 14 special bases"}
+EXHAUSTIVE = {"quick": "cross product of 12 special longitudes x 13 special latitudes x 4 special heights, each against 17 special bases",
+              "thorough": "cross product of 12 special longitudes x 13 special latitudes x 4 special heights, each against 17 special bases"}
 CASE_LIMIT_S = 30.0
 
 TOL_DEG = 1e-9
@@ -47,6 +47,7 @@ LAT_SPECIAL = [0.0, 89.9, -89.9, 89.0, -89.0, 89.5, -89.5, 45.0, -45.0, 1e-9, -1
 H_SPECIAL = [-1000.0, 10000.0, 0.0, 4321.5]
 BASE_SPECIAL = [[0.0, 0.0, 0.0], [180.0, 0.0, 0.0], [-180.0, 45.0, 10000.0], [0.0, 89.9, -1000.0], [0.0, -89.9, 10000.0],
                 [179.999999999, 89.5, 0.0], [-179.999999999, -89.0, 250.0], [2.3488, 48.8534, 35.0],
+                [2.3488, 48.8534, 285.0], [2.3488, -48.8534, 285.0], [-2.3488, -48.8534, 285.0],
                 [-122.4194, 37.7749, 16.0], [151.2093, -33.8688, 3.0], [90.0, 0.0, -1000.0], [-90.0, 1e-9, 10000.0],
                 [45.0, 89.9, 10000.0], [-135.0, -89.9, -1000.0]]
 
@@ -140,6 +141,20 @@ def _near(rng, b):
     return [lon, lat, _clamp(b[2] + rng.uniform(-200, 200), -1000.0, 10000.0)]
 
 
+def _one_component_changed(rng, b):
+    c = list(b)
+    k = rng.choice([0, 1, 2, 2])
+    if k == 0:
+        c[0] = _lon(rng)
+    elif k == 1:
+        c[1] = _lat(rng)
+    else:
+        c[2] = _clamp(b[2] + rng.choice([-1, 1]) * rng.choice([0.5, 35.0, 250.0, 1500.0]), -1000.0, 10000.0)
+        if c[2] == b[2]:
+            c[2] = _clamp(b[2] - 35.0, -1000.0, 10000.0) if b[2] > 0 else b[2] + 35.0
+    return c
+
+
 def _l93_point(rng):
     lo0, lo1, la0, la1 = G.L93_DOMAIN
     u = rng.random()
@@ -162,12 +177,17 @@ def cases(chunk):
             pts, b1, b2 = [], [], []
             for _ in range(BATCH):
                 b = _point(rng)
+                if b1 and rng.random() < 0.15:
+                    # call history: the base differs from the previous one in ONE component only (same lon/lat at
+                    # another height, same meridian, same parallel) -- anything remembered per base must tell them apart
+                    b = _one_component_changed(rng, b1[-1])
                 p = _near(rng, b) if rng.random() < 0.4 else _point(rng)
                 if rng.random() < 0.01:
                     p = list(b)
                 pts.append(p)
                 b1.append(b)
-                b2.append(_near(rng, b) if rng.random() < 0.3 else _point(rng))
+                u = rng.random()
+                b2.append(_one_component_changed(rng, b) if u < 0.15 else _near(rng, b) if u < 0.4 else _point(rng))
             yield {"kind": "pts", "pts": pts, "b1": b1, "b2": b2}
     elif kind == "l93":
         for _ in range(chunk["n"]):
@@ -325,6 +345,18 @@ def _check_point(p, b1, b2, base_as_ecef, ctx):
         raise Bad({"what": "ECEF->ENU(base)->ECEF does not return the original position", "ecef": list(X), "base": b1,
                    "base_as_ecef": base_as_ecef, "enu": _enu_t(enu_e), "got": _ecef_t(ec2),
                    "error_m": _dist(_ecef_t(ec2), X)})
+    # --- the second base maps to (0,0,0) in its own frame -- asked straight after conversions that used b1 (b2 may
+    #     differ from b1 in one component only)
+    o2 = _need(M.call(bg2.toENUCoords, B2), "GeoCoords.toENUCoords(base) of the second base", base2=b2, **info)
+    ctx.monitor("base.origin")
+    if not _finite(o2.E, o2.N, o2.U) or max(abs(o2.E), abs(o2.N), abs(o2.U)) > TOL_ORIGIN:
+        raise Bad({"what": "local coordinates of the base itself are not (0,0,0) (second base, used straight after "
+                           "conversions with the first)", "base": b2, "previous_base": b1,
+                   "base_as_ecef": base_as_ecef, "got": _enu_t(o2)})
+    g4 = _need(M.call(g.toENUCoords(B1).toGeoCoords, B1), "Geo->ENU(b1)->Geo after the second base was used", **info)
+    if not _geo_ok(g4, p):
+        raise Bad({"what": "Geo->ENU(b1)->Geo does not return the original position once another base was used in "
+                           "between", "position": p, "base": b1, "other_base": b2, "got": _geo_t(g4)})
     # --- ENU(b1) -> ENU(b2) -> ENU(b1)
     start = ENUCoords(enu1.E, enu1.N, enu1.U)
     enu2 = _need(M.call(start.toENUCoords, B1, B2), "ENUCoords.toENUCoords(b1,b2)", base2=b2, **info)
@@ -432,6 +464,13 @@ def _base_obj(form, b):
     return g
 
 
+def _reuse_base_object(obj):
+    """In-place edit of a coordinate object that belongs to the caller."""
+    obj.setX(obj.getX() + 0.75)
+    obj.setY(obj.getY() * 0.5)
+    obj.setZ(obj.getZ() + 135.0)
+
+
 def _run_track(case, ctx):
     pts = case["pts"]
     tr = gen.make_track(pts, coord="GEO")
@@ -453,6 +492,12 @@ def _run_track(case, ctx):
     _need(M.call(tr.toENUCoords, base), "Track.toENUCoords(base)", track=pts, base=b1, base_form=form)
     _srid(tr, "ENU", "Track.toENUCoords")
     _base_recorded(tr, b1, "toENUCoords(%s base)" % form, ctx)
+    if base is not None and len(pts) % 2 == 0:
+        # call history: the caller goes on using ITS base object (moves it to prepare the next track); what the
+        # track recorded as "the base it used" must not move with it
+        _reuse_base_object(base)
+        ctx.count("caller_reuses_base_object")
+        _base_recorded(tr, b1, "toENUCoords(%s base), after the caller modified its own base object" % form, ctx)
     nconv += 1
     enu_b1 = _coords(tr)
     if form == "none":
@@ -461,10 +506,15 @@ def _run_track(case, ctx):
             raise Bad({"what": "first fix used as base does not map to (0,0,0)", "got": enu_b1[0], "base": b1})
     if case["rebase"]:
         b2 = case["b2"]
-        _need(M.call(tr.toENUCoords, _base_obj(case["b2_form"], b2)), "Track.toENUCoords(b2) on an ENU track",
+        b2obj = _base_obj(case["b2_form"], b2)
+        _need(M.call(tr.toENUCoords, b2obj), "Track.toENUCoords(b2) on an ENU track",
               track=pts, b1=b1, b2=b2)
         _srid(tr, "ENU", "Track.toENUCoords(b2)")
         _base_recorded(tr, b2, "ENU->ENU rebasing", ctx)
+        if len(pts) % 3 == 0:
+            _reuse_base_object(b2obj)
+            ctx.count("caller_reuses_base_object")
+            _base_recorded(tr, b2, "ENU->ENU rebasing, after the caller modified its own base object", ctx)
         # there and back without undoing the re-basing first: the re-based track itself must denote the
         # original positions (a re-basing that leaves some fixes in the old frame cancels out in
         # ENU(b1)->ENU(b2)->ENU(b1) but not here)
